@@ -40,18 +40,22 @@ func (g *gen) xnext(profile string) entry {
 	var ws []w
 	switch profile {
 	case "catalog":
-		ws = []w{{40, g.register}, {14, g.deregister}, {6, g.coordinates}, {8, g.txn}, {6, g.sessionOp}, {6, ce}, {4, g.manualVIP}, {4, g.kvs}, {3, g.preparedQuery}, {2, g.vipFlag}}
+		ws = []w{{40, g.register}, {14, g.deregister}, {6, g.coordinates}, {8, g.txn}, {6, g.sessionOp}, {6, ce}, {4, g.manualVIP}, {4, g.kvs}, {3, g.preparedQuery}, {2, g.vipFlag},
+			{12, g.refreshCheck}, {3, g.existingConfigEntry}}
 	case "kv":
 		ws = []w{{40, g.kvs}, {14, g.sessionOp}, {12, g.txn}, {8, g.register}, {5, g.tombstoneReap}, {4, g.deregister}, {4, g.preparedQuery}}
 	case "mesh":
-		ws = []w{{30, ce}, {25, g.register}, {8, g.deregister}, {8, g.intention}, {5, g.manualVIP}, {4, g.vipFlag}, {4, g.systemMetadata}, {4, g.peering}, {3, g.txn}}
+		ws = []w{{30, ce}, {25, g.register}, {8, g.deregister}, {8, g.intention}, {5, g.manualVIP}, {4, g.vipFlag}, {4, g.systemMetadata}, {4, g.peering}, {3, g.txn},
+			{12, g.existingConfigEntry}, {7, g.existingIntention}, {4, g.refreshCheck}}
 	case "peering":
 		ws = []w{{50, g.peering}, {15, g.register}, {8, ce}, {5, g.deregister}, {4, g.vipFlag}}
 	case "ca":
-		ws = []w{{45, g.connectCA}, {5, g.caLeaf}, {10, g.systemMetadata}, {10, g.register}, {10, ce}, {10, g.intention}, {6, g.coordinates}, {8, g.federationState}}
+		ws = []w{{45, g.connectCA}, {5, g.caLeaf}, {10, g.systemMetadata}, {10, g.register}, {10, ce}, {10, g.intention}, {6, g.coordinates}, {8, g.federationState},
+			{5, g.existingIntention}, {4, g.existingConfigEntry}}
 	default:
 		ws = []w{{18, g.register}, {7, g.deregister}, {10, g.kvs}, {6, g.sessionOp}, {6, g.txn}, {2, g.tombstoneReap}, {5, g.coordinates}, {5, g.preparedQuery},
-			{3, g.systemMetadata}, {2, g.vipFlag}, {6, g.connectCA}, {12, ce}, {6, g.intention}, {8, g.peering}, {3, g.manualVIP}, {3, g.federationState}}
+			{3, g.systemMetadata}, {2, g.vipFlag}, {6, g.connectCA}, {12, ce}, {6, g.intention}, {8, g.peering}, {3, g.manualVIP}, {3, g.federationState},
+			{5, g.refreshCheck}, {5, g.existingConfigEntry}, {3, g.existingIntention}}
 	}
 	total := 0
 	for _, x := range ws {
@@ -179,7 +183,7 @@ func wideHistories(run *hx.Run, n, maxOps int) {
 		}
 		sw := newSweep(w.Store(), qs)
 		sw.twice, sw.run = true, run
-		g := &gen{r: r, u: u, fixedTime: time.Unix(1700000000, 0).UTC()}
+		g := &gen{r: r, u: u, fixedTime: time.Unix(1700000000, 0).UTC(), store: w.Store}
 		var descs []string
 		replay := func() []string { return append([]string(nil), descs...) }
 		idx := uint64(1 + r.Intn(3))
@@ -198,7 +202,12 @@ func wideHistories(run *hx.Run, n, maxOps int) {
 			if len(descs) == 0 && r.Chance(80) {
 				// the intention format is decided once, by the leader's one-way migration, before anything else
 				e = g.intentionFormat()
-			} else if len(descs) <= 1 && profile != "kv" && r.Chance(60) {
+			} else if len(descs) == 1 && r.Chance(75) {
+				// a server initialises the Connect CA before it serves anything: without a CA configuration (trust
+				// domain) every read that compiles a discovery chain (ServiceTopology, TrustBundleListByService,
+				// ServiceDiscoveryChain) fails and gets no verdict
+				e = g.caSetConfig()
+			} else if len(descs) <= 2 && profile != "kv" && r.Chance(60) {
 				e = g.vipFlag()
 			} else {
 				e = g.xnext(profile)
